@@ -51,6 +51,8 @@ def decide(pid, names, tier, pool=6):
             # a goal proved with the short solver budgets stays proved: the thorough tier only extends budgets for
             # goals that are still open
             c = cache_get('L|%s|%s|%s|%s' % (th, lh, name, '10000,120000'))
+            if c and not all(d['status'] == 'proved' for d in c):
+                c = None
         if c:
             for d in c:
                 d['cached'] = True
@@ -64,7 +66,13 @@ def decide(pid, names, tier, pool=6):
             for ln in p.stdout.splitlines():
                 if ln.startswith('RESULT-JSON '):
                     res = json.loads(ln[12:])
-                    if all(r['status'] == 'proved' for r in res):
+                    # cached: complete proofs; and the one outcome that is withdrawn from the claim anyway - the
+                    # U256::square value goal left UNDECIDED (never refuted) by the same budgets on the same tree and
+                    # engine sources - so that C06 and C07 do not both spend 20 minutes rediscovering it
+                    def _ok(r):
+                        return r['status'] == 'proved' or (r['name'] in ('L-sq-q-value', 'L-sq-r-value') and r['status'] == 'inconclusive'
+                                                           and 'refuted' not in r['detail'] and 'value goal: sat' not in r['detail'])
+                    if all(_ok(r) for r in res):
                         cache_put(key, res)
                     return res
             return [dict(name=name, statement='', functions=[], status='inconclusive', detail='engine L crashed, see ' + log, seconds=time.time() - t0, queries=0, vacuity=None, canary=None)]
